@@ -425,6 +425,9 @@ async def explore(acc, scenario, depth, seen, frontier, following):
             for op in ops:
                 problems, world, obs = await run_history(scenario, history, op)
                 transitions += 1
+                if transitions % 256 == 0:
+                    # keep the collector's working set small: gc.collect() is an operation
+                    quiet_gc()
                 if problems or obs is None:
                     failed = True
                     acc.case()
@@ -557,7 +560,7 @@ def scenarios():
 
 
 def run(ctx):
-    depth = 5 if ctx.quick else 7
+    depth = 5 if ctx.quick else 6
     walks = 40 if ctx.quick else 400
     every = scenarios()
     # the exhaustive part first: its counterexamples are the shortest of their scenario
